@@ -1166,6 +1166,17 @@ pub fn exec_op(sim: &mut Sim, op: &str) -> (Outcome, usize) {
         ["blkn", n] => sim.add_blocks(num(n) as u64),
         ["blk-", g] => sim.remove_block(*g == "g"),
         ["restart"] => sim.restart(),
+        // the clock moves on (keysends expire after 60 s, invoices a day after their expiry: the next heartbeat prunes
+        // them and must persist the pruned node state).  Only used by monitor-only groups: the node-request model
+        // runs with a constant clock.
+        ["tick", n] => {
+            let secs = num(n) as u64;
+            sim.txn(|s| {
+                let now = s.clock.now();
+                s.clock.set(now + Duration::from_secs(secs));
+                Ok(())
+            })
+        }
         ["mainloss"] => sim.main_loss(),
         _ => (Outcome::Err("bad-op".into()), 0),
     }
